@@ -55,6 +55,18 @@ CHECKS = {
  'C20': ('exploration', 'generated large trees under RLIMIT_NOFILE with adversarial ptrace schedules; exit-status + model oracle, exact descriptor peak reported',
          'Trees of 600-3000 (thorough 30000) files copied under a 1024-descriptor limit, unsupervised and with the walker/dispatcher prioritised over the pool so that queues fill; the run must succeed with a complete tree. The exact peak of open descriptors per (driver, workers, N) is reported.',
          'the peak is reported, not judged (schedule dependent)', '6/C20'),
+ 'C07': ('exploration', 'fault + schedule exploration under the ptrace supervisor with a state-confirmed hang oracle (deadlock / spin); library-client probe for the API clause',
+         'Generated trees (incl. FIFOs, sockets, empty inputs) x schedules x single injected faults; the process must exit. A run over 20 s is re-run under 60 s and is a violation only if the supervisor can name the state (all live threads blocked and none held = deadlock; >100x the fault-free call count = spin); any open of a FIFO/socket source is a violation; the API probe must see copy() return and the update stream end.',
+         'bounded-time evidence of liveness; an unconfirmed slow run is reported inconclusive (exit 2), never as a violation', '6/C07'),
+ 'C12': ('exploration', 'property-based testing of the library API through a linked probe (recording / channel / noop updaters), partly under the ptrace supervisor with faults and schedules; stream invariants vs syscall ground truth',
+         'The update stream of generated copies is checked against the announced-size, prefix (Copied <= Size), ground-truth (Copied <= bytes the kernel moved, by supervisor stamps), termination (copy returns, stream ends) and no-silent-incompleteness clauses.',
+         'the recording updater linearises updates with a mutex; marker lines are ordered against data calls by the supervisor', '6/C12'),
+ 'C17': ('exploration', 'differential property-based testing against git itself (check-ignore, cross-checked with ls-files) over a generated pattern grammar and trees',
+         'For generated trees and .gitignore files the set of copied relative paths must equal the set git reports as not ignored (excluded directories prune their subtree); without the flag everything is copied.',
+         'git 2.39 is the reference; cases where git disagrees with itself are dropped and counted (0 so far)', '6/C17'),
+ 'C19': ('exploration', 'property-based testing of libfs through a linked API probe; exhaustive enumeration of a bounded universe for merge_extents; libFuzzer target (thorough)',
+         'Generated file layouts: every non-zero byte must lie inside the ranges reported by map_extents, merge_extents(map_extents) and the next_sparse_segments walk, which must be ordered and disjoint. merge_extents laws on generated lists and exhaustively on all sorted extent lists over offsets 0..=14 (thorough 0..=19), plus 2M coverage-guided runs in thorough.',
+         'exhaustive only over the stated bounded universe (coverage.exhaustive is therefore not set for the whole check); ext4 FIEMAP/SEEK_HOLE', '6/C19'),
 }
 
 NA_REASON = 'check not built yet (work in progress in this session)'
@@ -72,6 +84,9 @@ m = {
  'engines': [
   {'name': 'E1 model+snapshot', 'path': 'harness/xv/src/{sandbox,model}.rs', 'serves_properties': ['C01', 'C02', 'C03', 'C08', 'C09', 'C10', 'C11', 'C13', 'C14', 'C16', 'C17'], 'kind_free_text': 'materialise generated specs, run real xcp, recursive lstat/content/xattr snapshots, reference model of cp mapping'},
   {'name': 'E2 ptrace supervisor', 'path': 'harness/xv/src/sup.rs', 'serves_properties': ['C03', 'C04', 'C05', 'C06', 'C07', 'C08', 'C09', 'C10', 'C12', 'C14', 'C15', 'C18', 'C20'], 'kind_free_text': 'syscall log with decoded targets, errno injection, short-count clamps, FICLONE emulation, kill points, priority scheduler at syscall boundaries'},
+  {'name': 'E3 api-probe', 'path': 'harness/probe, probe-fallback', 'serves_properties': ['C05', 'C07', 'C12', 'C19'], 'kind_free_text': 'binaries linked against /repo/libxcp and /repo/libfs (with and without the Linux backend): extent maps, merge laws (exhaustive), library-client copy with recording/channel/noop updaters'},
+  {'name': 'E4 git oracle', 'path': 'harness/xv/src/checks/c17.rs', 'serves_properties': ['C17'], 'kind_free_text': 'throw-away bare git-dir, check-ignore --no-index and ls-files --others --exclude-standard'},
+  {'name': 'E5 libFuzzer', 'path': 'harness/fuzz', 'serves_properties': ['C19'], 'kind_free_text': 'cargo +nightly fuzz target for libfs::merge_extents with the merge laws inside the target (thorough tier)'},
   {'name': 'proptest driver', 'path': 'harness/xv/src/engine.rs', 'serves_properties': ids, 'kind_free_text': 'seeded TestRunner per shard process, known-finding exclusion, shrinking, replay files, evidence'},
  ],
  'checks': [],
